@@ -340,10 +340,16 @@ class Package:
         data = data if isinstance(data, bytes) else data.encode('utf-8')
         self.members = [(n, data if n == name else d) for n, d in self.members]
 
-    def to_bytes(self, compression=zipfile.ZIP_DEFLATED):
+    def to_bytes(self, compression=zipfile.ZIP_DEFLATED, rng=None):
+        """with `rng`: compression method chosen per member, member timestamps varied"""
         b = io.BytesIO()
         with zipfile.ZipFile(b, 'w', compression) as z:
-            for n, d in self.members: z.writestr(n, d)
+            for n, d in self.members:
+                if rng is None: z.writestr(n, d)
+                else:
+                    zi = zipfile.ZipInfo(n, date_time=(rng.randint(1980, 2030), rng.randint(1, 12), rng.randint(1, 28), rng.randint(0, 23), 0, 0))
+                    zi.compress_type = rng.choice([zipfile.ZIP_STORED, zipfile.ZIP_DEFLATED])
+                    z.writestr(zi, d)
         return b.getvalue()
 
 
